@@ -23,7 +23,7 @@ FUNCS = [
 
 def configs(tier):
     if tier == "quick":
-        return [dict(c, query_timeout_s=150) for c in [dict(T=1, nmax=5, variant="plain"), dict(T=1, nmax=5, variant="fail"), dict(T=1, nmax=4, variant="early"),
+        return [dict(c, query_timeout_s=150) for c in [dict(T=1, nmax=5, variant="plain"), dict(T=1, nmax=5, variant="fail"), dict(T=1, nmax=7, variant="early"),
                 dict(T=2, nmax=2, variant="plain"), dict(T=2, nmax=2, variant="fail"), dict(T=2, nmax=2, variant="early")]]
     return [dict(T=1, nmax=7, variant=v) for v in ("plain", "fail", "early")] + \
            [dict(T=2, nmax=3, variant=v) for v in ("plain", "fail", "early")] + \
@@ -200,6 +200,8 @@ def _reuse_and_readahead(sch):
                 worst[0] = max(worst[0], pulled[0] - got)
                 got += 1
                 if sch.get("early_exit_after") and got == sch["early_exit_after"]:
+                    if sch.get("consumer_raises"):
+                        raise pocomp.ConsumerError()
                     break
     except Exception:  # noqa: BLE001
         pass
